@@ -149,16 +149,23 @@ Proof. unfold mt_drop_iter. now rewrite (proj1 (settle_id c _)). Qed.
 Lemma drop_iter_ents c y : mt_ents (mt_drop_iter c y) = mt_ents y.
 Proof. unfold mt_drop_iter. now rewrite (proj2 (settle_id c _)). Qed.
 
+(* field lemmas, so that the proofs below rewrite instead of converting through install_new *)
+Lemma look_clear_imm s m : look_of (clear_imm s) m = look_of s m. Proof. reflexivity. Qed.
+Lemma scans_upd_mt g m s : ms_scans (upd_mt g m s) = ms_scans s. Proof. reflexivity. Qed.
+Lemma scans_clear_imm s : ms_scans (clear_imm s) = ms_scans s. Proof. reflexivity. Qed.
+Lemma mem_upd_mt g m s : ms_mem (upd_mt g m s) = ms_mem s. Proof. reflexivity. Qed.
+Lemma mem_clear_imm s : ms_mem (clear_imm s) = ms_mem s. Proof. reflexivity. Qed.
+
 Section Look.
 Variable c : cfg.
 
 (* the list of memtable m after one event, when m is not the memtable the event writes into *)
 Lemma look_stable s e m : (exists y, In y (ms_mts s) /\ mt_id y = m) ->
-  (forall b, e = EWrite b -> m <> ms_mem s) ->
+  (forall b, e = EWrite b -> m <> ms_mem s) -> (forall m' k n v, e = EInsert m' k n v -> m <> m') ->
   look_of (fst (mstep c s e)) m = look_of s m.
 Proof.
-  intros Hex Hw. destruct e as [b| |fid|levels|fs|fs|cid lo hi|cid o|cid]; cbn [mstep].
-  - cbn [fst]. unfold do_write. cbv zeta. pose proof (Hw b eq_refl) as Hne. clear Hw.
+  intros Hex Hw Hins. destruct e as [b| |fid|levels|fs|fs|cid lo hi|cid o|cid| |m' k n v|n]; cbn [mstep].
+  - cbn [fst]. unfold do_write. cbv zeta. pose proof (Hw b eq_refl) as Hne. clear Hw Hins.
     assert (forall n s0, ms_mem s0 = ms_mem s ->
               look_of (fold_left (fun s1 kv => upd_mt (mt_insert (mkE (fst kv) n (snd kv))) (ms_mem s1) s1) b s0) m = look_of s0 m) as H.
     { intros n. induction b as [|kv b IH]; intros s0 E0; cbn [fold_left]; [reflexivity|].
@@ -175,7 +182,7 @@ Proof.
     + exfalso. pose proof (find_none _ _ E y Hy) as Hn. cbn beta in Hn. rewrite Hid, N.eqb_refl in Hn. discriminate.
   - destruct (ms_imm s) as [im|]; cbn [fst]; [|reflexivity]. unfold do_flushdone. cbv zeta.
     rewrite !look_of_upd; try (intros y; apply (drop_store_id c)); try (right; intros y; apply (drop_store_ents c)).
-    transitivity (look_of (install_new (flush_levels fid im s) s) m); [apply look_of_mts; reflexivity|].
+    rewrite look_clear_imm.
     apply frame_look. apply install_new_frame.
   - cbn [fst]. apply frame_look. apply install_new_frame.
   - cbn [fst]. now apply look_of_mts.
@@ -197,6 +204,9 @@ Proof.
     assert (look_of (fold_left (fun s m => upd_mt (mt_drop_iter c) m s) (sc_mems sc) s1) m = look_of s m) as E2.
     { rewrite look_of_fold; [now apply look_of_mts|intros y; apply (drop_iter_id c)|intros y; apply (drop_iter_ents c)]. }
     destruct (sc_holds sc); [|exact E2]. rewrite (frame_look _ _ m (proj1 (vref_drop_frame _ _))). exact E2.
+  - reflexivity.
+  - destruct (insert_ok s m' k n); cbn [fst]; [|reflexivity]. apply look_of_upd; [reflexivity|]. left. exact (Hins m' k n v eq_refl).
+  - destruct ((ms_vis s <? n)%N && (n <=? ms_seq s)%N); reflexivity.
 Qed.
 End Look.
 
@@ -255,11 +265,11 @@ Variable c : cfg.
 
 Lemma scan_frame s e cid : about cid e = false -> find_scan (fst (mstep c s e)) cid = find_scan s cid.
 Proof.
-  intros Ha. destruct e as [b| |fid|levels|fs|fs|c' lo hi|c' o|c']; cbn [mstep about] in *.
+  intros Ha. destruct e as [b| |fid|levels|fs|fs|c' lo hi|c' o|c'| |m' k n v|n]; cbn [mstep about] in *.
   - cbn [fst]. unfold do_write. cbv zeta. apply find_scan_scans. cbn [ms_scans]. apply write_fold_fields.
   - destruct (ms_imm s); reflexivity.
   - destruct (ms_imm s) as [im|]; [|reflexivity]. cbn [fst]. unfold do_flushdone. cbv zeta.
-    apply find_scan_scans. unfold clear_imm. cbn [ms_scans upd_mt set_mts]. apply frame_scans. apply install_new_frame.
+    apply find_scan_scans. rewrite !scans_upd_mt, scans_clear_imm. apply frame_scans. apply install_new_frame.
   - cbn [fst]. apply find_scan_scans. apply frame_scans. apply install_new_frame.
   - reflexivity.
   - reflexivity.
@@ -292,14 +302,17 @@ Proof.
       unfold find_scan, s1. cbn [ms_scans set_scans]. now apply find_scan_filter. }
     destruct (sc_holds sc); [|exact E2].
     rewrite (find_scan_scans _ _ cid (frame_scans _ _ (proj1 (vref_drop_frame _ _)))). exact E2.
+  - reflexivity.
+  - destruct (insert_ok s m' k n); reflexivity.
+  - destruct ((ms_vis s <? n)%N && (n <=? ms_seq s)%N); reflexivity.
 Qed.
 
 Lemma mem_frame s e : e <> ERollover -> ms_mem (fst (mstep c s e)) = ms_mem s.
 Proof.
-  intros Hne. destruct e as [b| |fid|levels|fs|fs|c' lo hi|c' o|c']; cbn [mstep]; try congruence.
+  intros Hne. destruct e as [b| |fid|levels|fs|fs|c' lo hi|c' o|c'| |m' k n v|n]; cbn [mstep]; try congruence.
   - cbn [fst]. unfold do_write. cbv zeta. cbn [ms_mem]. apply write_fold_fields.
   - destruct (ms_imm s) as [im|]; [|reflexivity]. cbn [fst]. unfold do_flushdone. cbv zeta.
-    unfold clear_imm. cbn [ms_mem upd_mt set_mts]. apply frame_mem. apply install_new_frame.
+    rewrite !mem_upd_mt, mem_clear_imm. apply frame_mem. apply install_new_frame.
   - cbn [fst]. apply frame_mem. apply install_new_frame.
   - reflexivity.
   - reflexivity.
@@ -319,6 +332,9 @@ Proof.
     assert (ms_mem (fold_left (fun s m => upd_mt (mt_drop_iter c) m s) (sc_mems sc) s1) = ms_mem s) as E2
       by (rewrite (proj1 (proj2 (fold_upd_fields (mt_drop_iter c) (sc_mems sc) s1))); reflexivity).
     destruct (sc_holds sc); [|exact E2]. rewrite (frame_mem _ _ (proj1 (vref_drop_frame _ _))). exact E2.
+  - reflexivity.
+  - destruct (insert_ok s m' k n); reflexivity.
+  - destruct ((ms_vis s <? n)%N && (n <=? ms_seq s)%N); reflexivity.
 Qed.
 End Frames.
 
@@ -332,6 +348,7 @@ Fixpoint quietb (cid : N) (memlive : bool) (es : list event) : bool :=
   | e :: r =>
       match e with
       | EWrite _ => negb memlive && quietb cid memlive r
+      | EInsert _ _ _ _ => false        (* the parts of a write: see ProofsLTG for the statement that allows them *)
       | ERollover => quietb cid false r
       | EOpen c0 _ _ => negb (N.eqb c0 cid) && quietb cid memlive r
       | EClose c0 => negb (N.eqb c0 cid) && quietb cid memlive r
@@ -394,7 +411,7 @@ Proof.
   assert (forall m, In m (xmems (sc_x sc)) -> In m (sc_mems sc)) as Hsub by (intros m Hm; exact (xok_mems _ _ _ Hxok m Hm)).
   destruct (about cid e) eqn:Ha.
   - (* an event of this cursor: by quietb it is a call *)
-    destruct e as [b| |fid|levels|fs|fs|c0 lo hi|c0 o|c0]; cbn [about] in Ha; try discriminate.
+    destruct e as [b| |fid|levels|fs|fs|c0 lo hi|c0 o|c0| |m' k n v|n]; cbn [about] in Ha; try discriminate.
     + cbn [quietb] in Hq. rewrite Ha in Hq. discriminate.
     + apply N.eqb_eq in Ha. subst c0. rewrite N.eqb_refl. cbn [mstep] in *. rewrite Hfs in *.
       unfold do_step in *. cbv zeta in *.
@@ -421,6 +438,7 @@ Proof.
     + apply (xtabs_ext (look_of s)); [|exact Ht]. intros m Hm. apply look_stable.
       * apply (a_sc _ (i_a _ HI) sc Hsc). now apply Hsub.
       * intros b Eb. subst e. cbn [quietb] in Hq. destruct ml; [discriminate|]. intros Em. apply (Hml eq_refl). rewrite <- Em. now apply Hsub.
+      * intros m' k n v Ee. subst e. cbn [quietb] in Hq. discriminate.
     + destruct (event_eq_rollover e) as [Er|Er].
       * subst e. intros _. cbn [mstep] in *. destruct (ms_imm s); [destruct Hne|]. cbn [fst]. unfold do_rollover. cbv zeta. cbn [ms_mem].
         intros Hin. destruct (a_sc _ (i_a _ HI) sc Hsc _ Hin) as [y [Hy Hyid]]. pose proof (a_fresh _ (i_a _ HI) y Hy). cbn [upd_mt set_mts ms_next] in Hyid. lia.
@@ -430,7 +448,7 @@ Qed.
 Lemma quietb_cons ml e r : quietb cid ml (e :: r) = true ->
   quietb cid ml [e] = true /\ quietb cid (match e with ERollover => false | _ => ml end) r = true.
 Proof.
-  cbn [quietb]. destruct e; intros H; try (split; [reflexivity|exact H]).
+  cbn [quietb]. destruct e; intros H; try (split; [reflexivity|exact H]); try discriminate.
   - apply andb_prop in H. destruct H as [H1 H2]. rewrite H1. auto.
   - apply andb_prop in H. destruct H as [H1 H2]. rewrite H1. auto.
   - apply andb_prop in H. destruct H as [H1 H2]. rewrite H1. auto.
@@ -448,11 +466,11 @@ Proof.
   destruct o as [|ob|er]; [| |destruct Ho].
   - destruct (mrun c s' r) as [s'' os] eqn:Er. cbn [snd] in *. inversion Hne; subst.
     specialize (IH s' _ _ HC' Hq2). rewrite Er in IH. cbn [snd] in IH. specialize (IH H2).
-    cbn [cursor_trace ref_trace]. destruct e as [b| |fid|levels|fs|fs|c0 lo hi|c0 o|c0]; cbn [app]; try exact IH.
+    cbn [cursor_trace ref_trace]. destruct e as [b| |fid|levels|fs|fs|c0 lo hi|c0 o|c0| |m' k n v|n]; cbn [app]; try exact IH.
     destruct (N.eqb c0 cid) eqn:Ec; [|exact IH]. apply N.eqb_eq in Ec. subst c0. specialize (Hobs o eq_refl). discriminate.
   - destruct (mrun c s' r) as [s'' os] eqn:Er. cbn [snd] in *. inversion Hne; subst.
     specialize (IH s' _ _ HC' Hq2). rewrite Er in IH. cbn [snd] in IH. specialize (IH H2).
-    cbn [cursor_trace ref_trace]. destruct e as [b| |fid|levels|fs|fs|c0 lo hi|c0 o|c0]; cbn [app]; try exact IH.
+    cbn [cursor_trace ref_trace]. destruct e as [b| |fid|levels|fs|fs|c0 lo hi|c0 o|c0| |m' k n v|n]; cbn [app]; try exact IH.
     destruct (N.eqb c0 cid) eqn:Ec; [|exact IH]. apply N.eqb_eq in Ec. subst c0. specialize (Hobs o eq_refl).
     cbn [app]. rewrite ?N.eqb_refl in *. rewrite Hobs. f_equal. exact IH.
 Qed.
